@@ -99,7 +99,75 @@ func c04GenIR(c *c04Case) ast.Schemas {
 	}
 	r := newRng(c.Seed*1000003 + uint64(c.Idx))
 	ss := genSchemas(r, o)
+	c04AddDiscriminatedUnion(newRng(c.Seed*7919+uint64(c.Idx)+17), ss)
 	return c04ApplyDel(ss, c.Del)
+}
+
+// c04AddDiscriminatedUnion: in a third of the IRs, add the shape the discriminator passes are written for —
+// a few struct objects sharing constant fields (of every scalar kind, not only strings), and objects /
+// fields that are unions of references to them, with or without a declared discriminator and mapping.
+func c04AddDiscriminatedUnion(r *rng, ss ast.Schemas) {
+	if len(ss) == 0 || !r.chance(34) {
+		return
+	}
+	sch := ss[0]
+	constant := func(kind ast.ScalarKind, i int) ast.Type {
+		t := ast.NewScalar(kind)
+		switch kind {
+		case ast.KindString:
+			t.Scalar.Value = pick(r, []string{"a", "b", "c", ""}) + fmt.Sprint(i)
+		case ast.KindBool:
+			t.Scalar.Value = i%2 == 0
+		case ast.KindFloat64, ast.KindFloat32:
+			t.Scalar.Value = float64(i) + 0.5
+		default:
+			t.Scalar.Value = int64(i)
+		}
+		return t
+	}
+	names := []string{"apiVersion", "enabled", "kind", "type", "v"}
+	kinds := []ast.ScalarKind{ast.KindString, ast.KindInt64, ast.KindBool, ast.KindFloat64, ast.KindString, ast.KindUint8}
+	// the shared constant fields: name -> scalar kind
+	shared := map[string]ast.ScalarKind{}
+	for k := 1 + r.intn(3); k > 0; k-- {
+		shared[pick(r, names)] = pick(r, kinds)
+	}
+	var sharedNames []string
+	for n := range shared {
+		sharedNames = append(sharedNames, n)
+	}
+	sort.Strings(sharedNames)
+	n := 2 + r.intn(2)
+	var branches ast.Types
+	for i := 0; i < n; i++ {
+		var fields []ast.StructField
+		for _, fn := range sharedNames {
+			f := ast.NewStructField(fn, constant(shared[fn], i))
+			f.Required = true
+			fields = append(fields, f)
+		}
+		fields = append(fields, ast.NewStructField("payload", ast.String()))
+		name := fmt.Sprintf("Variant%d", i)
+		sch.AddObject(ast.NewObject(sch.Package, name, ast.NewStruct(fields...)))
+		branches = append(branches, ast.NewRef(sch.Package, name))
+	}
+	union := ast.NewDisjunction(branches)
+	if r.chance(35) {
+		union.Disjunction.Discriminator = pick(r, append([]string{"nope"}, sharedNames...))
+		if r.chance(50) {
+			union.Disjunction.DiscriminatorMapping = map[string]string{}
+			for i := range branches {
+				union.Disjunction.DiscriminatorMapping[fmt.Sprintf("m%d", i)] = fmt.Sprintf("Variant%d", i)
+			}
+		}
+	}
+	if r.chance(50) {
+		sch.AddObject(ast.NewObject(sch.Package, "Variants", union))
+	} else {
+		f := ast.NewStructField("variant", union)
+		f.Required = r.chance(50)
+		sch.AddObject(ast.NewObject(sch.Package, "Holder", ast.NewStruct(f)))
+	}
 }
 
 func c04ApplyDel(ss ast.Schemas, del []string) ast.Schemas {
